@@ -26,7 +26,14 @@ Definition C13_full_statement : Prop :=
   (forall h m vec, obs_of (run_hist h G0) m vec = obs_of G0 m vec) /\ (forall h, obs_of_yaml (run_hist h G0) = obs_of_yaml G0) /\
   (forall h m file, obs_of_fortran (run_hist h G0) m file = obs_of_fortran G0 m file).
 
-(* ---------------------------------------------------------------- history independence under the computed guard *)
+(* ---------------------------------------------------------------- history independence under the computed guard
+   READING GUIDE.  C13_partial / _frontend / _yaml / _fortran are FRAME lemmas: the guard CachesClean says `proj g = proj G0` (the caches
+   a compilation reads are as in a fresh process), and the conclusion is that the compilation then behaves as in a fresh process.  The
+   statements that carry content are: WHICH histories reach such a state (C13_disciplined: induction over the history), WHAT each API
+   call does to each cache for every state (the reset theorems C13_clear_resets ... C13_cfc_resets_only, C13_compile_clear_resets,
+   the frame theorems, C13_ext_mods_persist), C13_module_cache_harmless (invariant over all histories), C13_op_cache_key_fixed and
+   C13_from_yaml_fixed (all models / all cache states), and the computed refutations.  Not in the model (covered by the fresh-
+   interpreter streams of harness/c13.py only): parser._sympify_cache, ExpressionParser._constant_counter, the jax-side state. *)
 (* for every history of API calls (any length, any models) after which the caches a compilation reads are as in a fresh
    process, every model compiles to the observable it has in a fresh process *)
 Theorem C13_partial : forall h m vec, CachesClean h = true -> obs_of (run_hist h G0) m vec = obs_of G0 m vec.
@@ -159,10 +166,26 @@ Proof. intros fx h s. exact (mc_fetch_ok _ s (reachable_mc_ok fx h)). Qed.
 Print Assumptions C13_module_cache_harmless.
 
 (* ---------------------------------------------------------------- refutations of the full statement: one per cache that leaks *)
-(* OperatorTemplate.cache by NAME: M2 (default k=3) after an uncleared M0 (k=2) is compiled with k=2 *)
+(* M2 (same operator name as M0, default k=3) after an uncleared non-vectorized M0 (k=2).  HISTORICAL NAME: before D90 (operator
+   cache keyed by NAME) this witness showed M2 compiled with k=2.  Since D90 (fixed_op_cache_key = true) the k values and dy agree on
+   both sides (k=3, dy=-3/4) and ONLY the argument names differ (A_num1/...: the node_labels leak of the uncleared compilation) - see
+   C13_same_name_after_uncleared_only_labels below.  The value leak of the name-keyed cache is recorded, for the old switch value, in
+   C13_refuted_op_cache_by_name_before_fix. *)
 Theorem C13_refuted_op_cache_by_name : exists h m vec, obs_of (run_hist h G0) m vec <> obs_of G0 m vec.
 Proof. exists [Compile M0 false false false], M2, false. apply obs_neq. vm_compute. reflexivity. Qed.
 Print Assumptions C13_refuted_op_cache_by_name.
+
+(* what that witness shows today: same k values, same dy, other names *)
+Definition only_names_differ (a b : obs) : bool :=
+  match a, b with
+  | OOk n k s d, OOk n' k' s' d' => list_eqb (list_eqb Qc_eqb) k k' && list_eqb Qc_eqb d d' && negb (list_eqb String.eqb n n')
+  | _, _ => false
+  end.
+Theorem C13_same_name_after_uncleared_only_labels :
+  fixed_op_cache_key = true ->
+  only_names_differ (obs_of (run_hist [Compile M0 false false false] G0) M2 false) (obs_of G0 M2 false) = true.
+Proof. intros _. vm_compute. reflexivity. Qed.
+Print Assumptions C13_same_name_after_uncleared_only_labels.
 
 (* node_cache: a vectorized M4 (2 nodes) after an uncleared vectorized M0 has 3 units *)
 Theorem C13_refuted_node_cache_leak : exists h m,
@@ -226,8 +249,9 @@ Theorem C13_refuted_py_then_fortran_err_before_fix : exists h m file,
 Proof. exists [Compile M0 false false false], M1, "m". vm_compute. split; reflexivity. Qed.
 Print Assumptions C13_refuted_py_then_fortran_err_before_fix.
 
-(* D28: from_yaml(p).update_var(...) mutates the cached template; circuit.clear()/clear=True do not cure it
-   (NOTE, before D91: history-level witness for the switch value fixed_yaml_copy = false) *)
+(* D28: from_yaml(p).update_var(...) mutates the cached template; circuit.clear()/clear=True do not cure it.
+   RECORD ONLY: this conditional is vacuous while fixed_yaml_copy = true (its hypothesis is false, the proof takes the `discriminate`
+   branch and the witness is not type-checked); the checked statements are the two theorems below, over an explicit switch argument. *)
 Theorem C13_refuted_template_cache_mutation : fixed_yaml_copy = false ->
   exists h, CachesClean h = true /\ obs_of_yaml (run_hist h G0) <> obs_of_yaml G0.
 Proof.
@@ -236,6 +260,36 @@ Proof.
         | exists [YUpd (mkq 5 1); YLoad true]; split; [vm_compute; reflexivity|]; apply obs_neq; vm_compute; reflexivity ].
 Qed.
 Print Assumptions C13_refuted_template_cache_mutation.
+
+(* D28 over an EXPLICIT switch argument (both proofs are computed, whatever the switches are).
+   yupd_state_k yc v g = the state after from_yaml(p).update_var({A/op/k: v}) in state g; yload_obs_k yc g = the observable of
+   from_yaml(p).get_run_func(...) in state g; with the current switch they are what step computes (C13_yaml_k_is_step). *)
+Definition yupd_state_k (yc : bool) (v : Qc) (g : G) : G :=
+  let '(g1, e) := from_yaml_k yc g in set_template (Some {| tc_obj := tc_obj e; tc_kA := if yc then None else Some v |}) g1.
+Definition yload_obs_k (yc : bool) (g : G) : obs :=
+  let '(g1, e) := from_yaml_k yc g in snd (compile_obj (push_handle (tc_obj e) g1) (tc_obj e) (ymodel (tc_kA e)) false false).
+
+Theorem C13_yaml_k_is_step : forall fx g v,
+  fst (step_with fx g (YUpd v)) = yupd_state_k fixed_yaml_copy v g /\ obs_of_yaml g = yload_obs_k fixed_yaml_copy g.
+Proof.
+  intros. unfold yupd_state_k, yload_obs_k, obs_of_yaml. cbn [step_with]. unfold from_yaml, mutated.
+  destruct (from_yaml_k fixed_yaml_copy g). split; reflexivity.
+Qed.
+Print Assumptions C13_yaml_k_is_step.
+
+(* BEFORE D91 (yc = false): every cache a compilation reads is clean after the update_var, yet a later from_yaml(p) compiles the
+   mutated circuit (k_A = 5 instead of 2) *)
+Theorem C13_refuted_template_cache_mutation_before_fix :
+  let g := yupd_state_k false (mkq 5 1) G0 in
+  caches_clean g = true /\ yload_obs_k false g <> yload_obs_k false G0.
+Proof. cbv zeta. split; [vm_compute; reflexivity|]. apply obs_neq. vm_compute. reflexivity. Qed.
+Print Assumptions C13_refuted_template_cache_mutation_before_fix.
+
+(* SINCE D91 (yc = true): the same sequence compiles the circuit as it is on disk *)
+Theorem C13_template_cache_mutation_fixed :
+  obs_eqb (yload_obs_k true (yupd_state_k true (mkq 5 1) G0)) (yload_obs_k true G0) = true.
+Proof. vm_compute. reflexivity. Qed.
+Print Assumptions C13_template_cache_mutation_fixed.
 
 (* the same on from_yaml itself, for either value of the switch: before the repair a cache that holds a mutated circuit hands it
    out; since D91 (fixes/fix_D91.diff) NO state of the cache makes from_yaml hand out a mutated circuit *)
@@ -276,10 +330,12 @@ Example C13_input_labels :
   input_labels (run_hist_with false [CompileIn M0 false false false; CFC true true] G0) <> [] /\
   frontend_clean (run_hist_with true [CompileIn M0 false false false; CompileIn M3 true false true; MClear 1] G0) = true.
 Proof. vm_compute. repeat split; try reflexivity; discriminate. Qed.
+Print Assumptions C13_input_labels.
 
 Theorem C13_refuted : ~ C13_full_statement.
 Proof.
-  intros [H _]. destruct C13_refuted_op_cache_by_name as (h & m & vec & K). apply K. apply H.
+  (* rests on a difference of VALUES that exists in the code as it is: the node_cache leak (state dimension 3 instead of 2) *)
+  intros [H _]. destruct C13_refuted_node_cache_leak as (h & m & K & _). apply K. apply H.
 Qed.
 Print Assumptions C13_refuted.
 
@@ -296,3 +352,4 @@ Example C13_nonvacuous :
           (OOk ["A/op/k"; "A/op/r"; "B/op/k"; "B/in_edge_0/weight"] [[mkq 2 1]; [mkq 3 1]]
                [("A/op/x", 0%nat, 1%nat); ("B/op/x", 1%nat, 2%nat)] [mkq (-1) 2; mkq (-1) 1]) = true.
 Proof. vm_compute. repeat split; reflexivity. Qed.
+Print Assumptions C13_nonvacuous.
